@@ -1,9 +1,9 @@
 (** The sampling loop of [RandomGen.__sample] (Random/Loop.v) instantiated with
-    the keys of a design of fragment F1: exhausting RandomGen yields exactly the
+    the keys of a design of fragment F2 (F1, F0): exhausting RandomGen yields exactly the
     valid sequences, each once.  Proof file. *)
 From Coq Require Import ZArith List Bool Arith Lia.
 From SP Require Import Design.Flat Design.Sem Random.Enum Random.Frag Random.FragSem Random.Loop
-  Random.Frag0Complete Random.Frag1Thms Random.Frag0Thms.
+  Random.Frag0Complete Random.Frag2Thms Random.Frag1Thms Random.Frag0Thms.
 Import ListNotations.
 Open Scope nat_scope.
 
@@ -62,7 +62,7 @@ Proof.
     destruct bl as [y|]; [apply comp_eqb_spec|]; reflexivity.
 Qed.
 
-Theorem f1_loop_exhausts (fb : flat) : frag1 fb = true -> fl_errors_fail fb = false ->
+Theorem f2_loop_exhausts (fb : flat) : frag2 fb = true -> enumerates fb -> fl_errors_fail fb = false ->
   forall (requested : nat) (draws res : list key),
   (forall k, In k draws -> In k (keys_of fb)) ->
   sample_loop key key_eqb (key_accepted fb) (length (keys_of fb)) requested draws [] [] = Some res ->
@@ -70,10 +70,11 @@ Theorem f1_loop_exhausts (fb : flat) : frag1 fb = true -> fl_errors_fail fb = fa
   NoDup (map (cand_tseq fb) res) /\
   (forall s, In s (map (cand_tseq fb) res) <-> valid_b (code_sem fb) s = true).
 Proof.
-  intros HF He requested draws res Hd Hrun Hreq.
+  intros HF Hex He requested draws res Hd Hrun Hreq.
+  destruct (f2_enumerates_memos fb HF Hex) as (m & lm & HM & Hen).
   destruct (loop_exhausts key key_eqb key_eqb_spec (key_accepted fb) (length (keys_of fb)) requested
-              (keys_of fb) (f1_keys_nodup fb HF) eq_refl draws res Hd Hrun) as (Hnd & Hsub & _ & Hall).
-  destruct (f1_accepted_exact fb HF He) as [Hnd' Hiff].
+              (keys_of fb) (f2_keys_nodup fb HF) eq_refl draws res Hd Hrun) as (Hnd & Hsub & _ & Hall).
+  destruct (f2_accepted_exact fb HF Hex He) as [Hnd' Hiff].
   assert (Hle : accepted_count key (key_accepted fb) (keys_of fb) <= requested).
   { unfold accepted_count.
     assert (G : forall l : list key, length (filter (key_accepted fb) l) <= length l).
@@ -86,13 +87,22 @@ Proof.
   split.
   - apply NoDup_map_inj_in; [|exact Hnd]. intros k1 k2 H1 H2 E.
     pose proof (proj1 (Hsub k1 H1)) as Hk1. pose proof (proj1 (Hsub k2 H2)) as Hk2.
-    destruct (f1_decode_key fb HF k1 (f1_keys_of_ok fb HF k1 Hk1)) as [r1 [Hd1 _]].
-    destruct (f1_decode_key fb HF k2 (f1_keys_of_ok fb HF k2 Hk2)) as [r2 [Hd2 _]].
+    destruct (f2_decode_key fb HF m lm HM Hen k1 (f2_keys_of_ok fb HF m lm HM Hen k1 Hk1)) as [r1 [Hd1 _]].
+    destruct (f2_decode_key fb HF m lm HM Hen k2 (f2_keys_of_ok fb HF m lm HM Hen k2 Hk2)) as [r2 [Hd2 _]].
     unfold cand_tseq in E. rewrite Hd1, Hd2 in E.
-    apply (f1_cand_inj fb HF k1 k2 r1 r2 Hk1 Hk2 Hd1 Hd2 E).
+    apply (f2_cand_inj fb HF k1 k2 r1 r2 Hk1 Hk2 Hd1 Hd2 E).
   - intros s. rewrite <- Hiff. split; intros Hin; apply in_map_iff in Hin; destruct Hin as [k [E Hk]];
       apply in_map_iff; exists k; (split; [exact E | apply Hres; exact Hk]).
 Qed.
+
+Theorem f1_loop_exhausts (fb : flat) : frag1 fb = true -> fl_errors_fail fb = false ->
+  forall (requested : nat) (draws res : list key),
+  (forall k, In k draws -> In k (keys_of fb)) ->
+  sample_loop key key_eqb (key_accepted fb) (length (keys_of fb)) requested draws [] [] = Some res ->
+  length (keys_of fb) <= requested ->
+  NoDup (map (cand_tseq fb) res) /\
+  (forall s, In s (map (cand_tseq fb) res) <-> valid_b (code_sem fb) s = true).
+Proof. intros HF. exact (f2_loop_exhausts fb (frag1_frag2 fb HF) (f1_enumerates fb HF)). Qed.
 
 Theorem f0_loop_exhausts (fb : flat) : frag0 fb = true -> fl_errors_fail fb = false ->
   forall (requested : nat) (draws res : list key),
